@@ -82,7 +82,7 @@ fn main() {
     run.rule("every ordered pair (a, b != 0) of each sub-domain through 5 forms (owned/borrowed x owned/borrowed, %=) against r = a - b*trunc(a/b) on aligned integers; zero divisors must panic; non-trivial = scales differ (one side must be re-scaled) or signs differ; cases distinct by construction");
     run.assume("model self-check: |r| < |b| and sign(r) = sign(a) are asserted on the model side in debug builds of the harness; the identity itself is the oracle");
 
-    let nmax: i64 = tier.pick(80, 300);
+    let nmax: i64 = tier.pick(80, 600);
     run.bound("S1_unscaled_max", nmax);
     run.bound("S1_scales", "-3..=3");
     let ops = small_decimals(nmax, -3, 3);
